@@ -55,6 +55,16 @@ def contig_layout(r):
     if style == 'one_small':
         lens = lens[:1]
     names = [f'ctg{j}' for j in range(len(lens))]
+    if not MANY[0] and r.random() < 0.4:
+        # contig names as real references have them: with the characters region strings and file names are built from
+        special = ['HLA-A*01:01', 'chrUn_KI270302v1', 'ERCC-00002', 'chr1_KI270706v1_random', 'NC_000001.11', '12', 'ctg1.1', 'gi|9626243|ref|NC_001416.1|', 'chrEBV']
+        r.shuffle(special)
+        for j in range(min(len(names), r.randint(1, 3))):
+            names[r.randrange(len(names))] = special[j]
+        if len(set(names)) != len(names):
+            names = [f'ctg{j}' for j in range(len(lens))]
+        else:
+            SPECIAL[0] += 1
     order = list(zip(names, lens))
     if style != 'smalls_then_large':
         r.shuffle(order)
@@ -65,6 +75,7 @@ def contig_layout(r):
 MATED = ('pair', 'same_orientation', 'half_mapped', 'split')
 DENSE = [False]
 HARD = [0]
+SPECIAL = [0]
 MANY = [False]
 PLACED = [0]
 
@@ -230,6 +241,8 @@ def run_case(case):
     acc.count('lib:dense', 1 if DENSE[0] else 0)
     acc.count('lib:hard_clipped_fragments', HARD[0])
     HARD[0] = 0
+    acc.count('layout:contig_names_with_separator_characters', SPECIAL[0])
+    SPECIAL[0] = 0
     acc.count('lib:placed_unmapped_pairs', PLACED[0])
     PLACED[0] = 0
     if not recs:
